@@ -95,7 +95,7 @@ type c18Imp struct {
 	As     string `json:"as,omitempty"`
 	Search string `json:"search,omitempty"`
 	Tag    string `json:"tag,omitempty"`
-	Style  int    `json:"style,omitempty"` // bit0 quoted keys, bit1 tag before search
+	Style  int    `json:"style,omitempty"` // bit0 quoted keys, bit1 tag before search, bit2 decoy keys as/relpath/is_data
 }
 
 type c18KV struct{ K, V string } // metadata key, JSON text of its value
@@ -223,6 +223,14 @@ func (im c18Imp) metaText() string {
 			kvs = append([]string{kv}, kvs...)
 		} else {
 			kvs = append(kvs, kv)
+		}
+	}
+	if im.Style&4 != 0 {
+		// decoys: metadata keys named like the fields modulemeta computes for a dependency; the computed fields win
+		// (an include has no `as` of its own, so a metadata key of that name would legitimately show through)
+		kvs = append(kvs, q("relpath")+": \"other/place\"", q("is_data")+": "+strconv.FormatBool(im.K != "data"))
+		if im.K != "include" {
+			kvs = append(kvs, q("as")+": \"zzz\"")
 		}
 	}
 	if len(kvs) == 0 {
